@@ -696,6 +696,26 @@ class C15(Check):
 
     keys_seen = {}
 
+    @staticmethod
+    def _dhcp_pad_overflow(case):
+        """is the frame Ethernet / IPv4 (no options needed) / UDP / DHCP whose IPv4 total length, plus one PAD octet for every option of odd
+        length (what packOptions adds when the message is serialised again), no longer fits 16 bits?  Read off the frame's own bytes."""
+        try:
+            b = bytes.fromhex(case["hex"])
+            if b[12:14] != b"\x08\x00" or b[14] >> 4 != 4 or b[23] != 17: return False
+            ihl = (b[14] & 15) * 4; tot = (b[16] << 8) | b[17]
+            u = 14 + ihl
+            if not ({(b[u] << 8) | b[u + 1], (b[u + 2] << 8) | b[u + 3]} & {67, 68}): return False
+            o = u + 8 + 240; pads = 0
+            if b[o - 4:o] != b"\x63\x82\x53\x63": return False
+            while o < len(b) and b[o] != 255:
+                if b[o] == 0: o += 1; continue
+                if o + 1 >= len(b): break
+                n = b[o + 1]; pads += (2 + n) & 1; o += 2 + n
+            return tot + pads > 65535
+        except Exception:
+            return False
+
     def _finding_key(self, case, obs, failure):
         if failure.startswith("ethernet(raw) raises"):
             x = obs["parse_exc"]; return "parse:%s:%s" % (x["where"], x["exc"])
@@ -705,6 +725,8 @@ class C15(Check):
         if m:
             x = obs["pack2" if failure.endswith("when called again") else m.group(1)]
             st = "print" if m.group(1) in ("str", "dump") else m.group(1)
+            if st == "pack" and x["exc"] == "error" and x["where"].startswith("ipv4.") and self._dhcp_pad_overflow(case):
+                return "pack:dhcp:pad-octets-push-ipv4-total-length-past-65535"
             return "%s:%s:%s" % (st, x["where"], x["exc"])
         m = re.match(r"handler (\w+) raises", failure)
         if m:
@@ -1019,6 +1041,9 @@ class C15(Check):
                   "big-udp": (9000, "max"), "big-tcp": (9000, "max")}
 
     def long_fixed(self):
+        # the largest DHCP messages an IPv4 datagram can carry, made of 255-octet options (odd length: re-serialising pads each one)
+        for n in (200, 252, 253):
+            yield frame_case(FR.j_dhcp255(n), "long dhcp255 %d" % n)
         for fam, (build, unit, over, cap) in self.LONG_FAMILIES.items():
             nmax = self.long_nmax(fam)
             for n in self.LONG_FIXED.get(fam, ("max",) if cap > nmax else (min(cap, nmax) // 2,)):
